@@ -64,9 +64,6 @@ package influxql
 //@ func ParseStatement
 //@   props C04
 //@   skip string entry point: wraps (*Parser).ParseStatement
-//@ func QuoteIdent
-//@   props C06
-//@   skip segment rule of QuoteIdent not yet under contract (C06 undecided clause)
 //@ func addDuration
 //@   props C08
 //@   skip helper of ParseDuration: inlined there, where every + - * is checked against mathematical integers (C08)
